@@ -39,7 +39,11 @@ def alphabet(m, rng):
     J1 = [[F(x) for x in r] for r in base]
     J2 = [[F(x) * F(1, 8) for x in r] for r in reversed(base)]
     J3 = [[F(x + (1 if (i + j) % 2 else 0)) * F(1, 64) for j, x in enumerate(r)] for i, r in enumerate(base)]
-    return [J1, J2, J3]
+    # pairwise ORTHOGONAL rows of different lengths (independent tasks): the Nash solution has the closed form
+    # alpha_i = 1/|g_i|, a tempting shortcut around the solver and around the bookkeeping that follows it
+    n = len(base[0])
+    J4 = [[F((i + 2) if j == i else 0) for j in range(n)] for i in range(m)]
+    return [J1, J2, J3, J4]
 
 
 def run_impl(hist, mats, m, k, max_norm, dt):
@@ -113,11 +117,15 @@ def check_history(chk, hist, mats, m, k, max_norm, dt, items, metas):
             s = 0
             continue
         solved = res[ci][1] > 0
-        if solved != (s % k == 0):
-            chk.violation(f"NashMTL(k={k}): call {ci} (number {s} since reset) "
-                          f"{'invoked' if solved else 'did not invoke'} the solver",
-                          dict(rep_base, solver_calls=[r[1] for r in res]))
-            return
+        if solved != (s % k == 0) and "solver_dev" not in rep_base:
+            # the solver is how recomputation is OBSERVED; what the property fixes is the VALUE of the weights
+            # (recomputed on calls 0, k, 2k, ..., reused unchanged in between).  The deviation is kept and
+            # judged after the value comparison with the model: a violation with this history as failing input
+            # when the weights are wrong, a correspondence break (no failing input) when only the solver
+            # bookkeeping differs (e.g. a correct closed form for a special case)
+            rep_base["solver_dev"] = (f"NashMTL(k={k}): call {ci} (number {s} since reset) "
+                                      f"{'invoked' if solved else 'did not invoke'} the solver")
+            rep_base["solver_calls"] = [r[1] for r in res]
         s += 1
         ci += 1
     # (e) norm bound
@@ -170,7 +178,8 @@ def _run(chk):
     q = chk.tier == "quick"
     items, metas = [], []
     configs = []
-    # exhaustive over the alphabet {J0, J1, J2, reset} up to length 3 (quick) / 4 (thorough)
+    # exhaustive over the alphabet {J0, J1, J2, reset} up to length 3 (quick) / 4 (thorough); histories of length <= 2
+    # also over the orthogonal-row matrix J3
     L = 3 if q else 4
     ex_cfg = ([(2, 2, 1.0, "f64", 3), (3, 2, 0.1, "f64", 2), (2, 3, 0.5, "f32", 2)] if q else
               [(2, 2, 1.0, "f64", 4), (3, 3, 0.1, "f32", 4), (2, 1, 0.5, "f64", 4), (4, 4, 1.0, "f64", 3),
@@ -178,7 +187,7 @@ def _run(chk):
     for (m, k, mn, dt, L) in ex_cfg:
         mats = alphabet(m, rng)
         for ln in range(1, L + 1):
-            for hist in itertools.product([0, 1, 2, None], repeat=ln):
+            for hist in itertools.product([0, 1, 2, 3, None] if ln <= 2 else [0, 1, 2, None], repeat=ln):
                 if all(h is None for h in hist):
                     continue
                 check_history(chk, list(hist), mats, m, k, mn, dt, items, metas)
@@ -191,7 +200,7 @@ def _run(chk):
         mn = rng.choice([1.0, 0.1, 0.5, 0.0])
         dt = rng.choice(["f64", "f32"])
         mats = alphabet(m, rng)
-        hist = [rng.choice([0, 1, 2, 0, 1, 2, None]) for _ in range(rng.randint(3, 7))]
+        hist = [rng.choice([0, 1, 2, 3, 0, 1, 2, None]) for _ in range(rng.randint(3, 7))]
         if all(h is None for h in hist):
             continue
         check_history(chk, hist, mats, m, k, mn, dt, items, metas)
@@ -201,15 +210,26 @@ def _run(chk):
     mres = model_runs(items) if items else []
     for (k, mn, m, ops), (rep_base, res, alphas), mr in zip(items, metas, mres):
         tol = 1e-5 if rep_base["dtype"] == "f32" else 1e-7
+        value_bad = False
         for i, ((mo, mb), (io, ins)) in enumerate(zip(mr, res)):
             sc = max(1.0, max(abs(float(x)) for x in mo))
-            if mb != (ins > 0) or max(abs(float(a) - b) for a, b in zip(mo, io)) > tol * sc * 10:
+            if max(abs(float(a) - b) for a, b in zip(mo, io)) > tol * sc * 10:
                 chk.violation(
-                    f"correspondence: model {'solved' if mb else 'reused'} / output {[float(x) for x in mo]} vs "
-                    f"implementation solver calls {ins} / output {io} at call {i} "
-                    f"(k={k}, max_norm={mn}); the raw weights come from a max_norm=0 twin",
+                    (rep_base.get("solver_dev", "") + "; " if rep_base.get("solver_dev") else "") +
+                    f"call {i}: the weights are not those of the schedule (recomputed on calls 0, k, 2k, ..., reused "
+                    f"unchanged in between): expected output {[float(x) for x in mo]}, got {io} "
+                    f"(k={k}, max_norm={mn}; model {'solves' if mb else 'reuses'} here, implementation made {ins} solver calls)",
                     dict(rep_base, call=i, twin_alphas=alphas), no_input=False)
+                value_bad = True
                 break
+        if not value_bad:
+            dev = rep_base.get("solver_dev") or next(
+                (f"call {i}: model {'solves' if mb else 'reuses'}, implementation made {ins} solver calls"
+                 for i, ((mo, mb), (io, ins)) in enumerate(zip(mr, res)) if mb != (ins > 0)), None)
+            if dev:
+                chk.violation("correspondence (recomputation is observed through the solver): " + dev +
+                              "; every output agrees with the schedule's weights", dict(rep_base, twin_alphas=alphas),
+                              no_input=True)
     chk.cov["rule"] = ("exhaustive over the alphabet {3 matrices of different scales, reset} up to length "
                        "3 (quick) / 4 (thorough) for the listed configurations, plus random histories of "
                        "length 3-7 over n_tasks 2..5, k 1..4, max_norm in {1, 0.5, 0.1, 0}, f32/f64; "
